@@ -3,6 +3,9 @@ impl CostModel for ConnectorWrapper {
     open spec fn conn_wf(&self) -> bool {
         match self { ConnectorWrapper::Matrix(c) => c.conn_wf(), ConnectorWrapper::Raw(c) => c.conn_wf(), ConnectorWrapper::Dual(c) => c.conn_wf() }
     }
+    open spec fn conn_shape(&self) -> bool {
+        match self { ConnectorWrapper::Matrix(c) => c.conn_shape(), ConnectorWrapper::Raw(c) => c.conn_shape(), ConnectorWrapper::Dual(c) => c.conn_shape() }
+    }
     open spec fn spec_num_left(&self) -> int {
         match self { ConnectorWrapper::Matrix(c) => c.spec_num_left(), ConnectorWrapper::Raw(c) => c.spec_num_left(), ConnectorWrapper::Dual(c) => c.spec_num_left() }
     }
@@ -18,6 +21,20 @@ impl CostModel for ConnectorWrapper {
     }
     open spec fn spec_cost_bound(&self) -> int {
         match self { ConnectorWrapper::Matrix(c) => c.spec_cost_bound(), ConnectorWrapper::Raw(c) => c.spec_cost_bound(), ConnectorWrapper::Dual(c) => c.spec_cost_bound() }
+    }
+    proof fn lemma_shape_of_wf(&self) {
+        match self {
+            ConnectorWrapper::Matrix(c) => c.lemma_shape_of_wf(),
+            ConnectorWrapper::Raw(c) => c.lemma_shape_of_wf(),
+            ConnectorWrapper::Dual(c) => c.lemma_shape_of_wf(),
+        }
+    }
+    proof fn lemma_wf_of_shape(&self) {
+        match self {
+            ConnectorWrapper::Matrix(c) => c.lemma_wf_of_shape(),
+            ConnectorWrapper::Raw(c) => c.lemma_wf_of_shape(),
+            ConnectorWrapper::Dual(c) => c.lemma_wf_of_shape(),
+        }
     }
     proof fn lemma_conn_wf(&self) {
         match self {
